@@ -75,6 +75,10 @@ def check_module(tkey, devs):
 def run_case(case):
     if case.get("history_independence"):
         return history_independence(0)[1]
+    if case.get("resave"):
+        return resave_after_edit(case["type"])[1]
+    if case.get("failed_save"):
+        return failed_save_then_save(case["type"])[1]
     if case.get("empty_synth"):
         return empty_synth()
     return check_module(case["type"], case["devs"])[0]
@@ -113,6 +117,99 @@ def rejected_dev(tkey, devs):
         except Exception:
             return d["k"] + ":" + str(d.get("n", d.get("p")))
     return "+".join(d["k"] + ":" + str(d.get("n", d.get("p"))) for d in devs)
+
+
+def resave_after_edit(tkey):
+    """build -> save (clone, Synth write, Project write) -> IN-PLACE edit of a payload element / option /
+    binding -> save again: the second file must carry the edit (a writer that caches packed bytes while the
+    list object is unchanged would replay the first save)."""
+    import rv.api as rv
+    from checks import c17
+
+    vs = []
+    n = 0
+    ops = [o for o in c17.inplace_ops(tkey) if o["k"] not in ("ip_links", "mm_uvalue")]
+    for op in ops:
+        n += 1
+        case = {"type": tkey, "resave": op}
+        mod = deviate.new_module(tkey)
+        mod.clone()
+        C.save(rv.Synth(mod))
+        p = rv.Project()
+        p.attach_module(mod)
+        C.save(p)
+        try:
+            c17.apply_inplace(mod, op)
+        except Exception:
+            continue
+        want_s = C.norm_module_for_compare(S.module(mod, in_project=False))
+        want_p = C.norm_module_for_compare(S.module(mod, in_project=True))
+        got_s = S.module(C.load_bytes(C.save(rv.Synth(mod))).module, in_project=False)
+        got_c = S.module(mod.clone(), in_project=False)
+        got_p = S.module(C.load_bytes(C.save(p)).modules[1], in_project=True)
+        for ctx, want, got in (("synth", want_s, got_s), ("clone", want_s, got_c), ("project", want_p, got_p)):
+            d = S.diff(want, got)
+            if d:
+                vs.append(C.viol("edit-after-save-not-written", {"type": tkey, "ctx": ctx, "op": op["k"] + ":" + str(op.get("p", "")),
+                                                                  "path": C.first_diff_key(d)},
+                                 {"diff": S.diff_text(d)}, case))
+    return n, vs
+
+
+class _FailingWriter:
+    def __init__(self, fail_at):
+        self.n = 0
+        self.fail_at = fail_at
+
+    def write(self, b):
+        k = self.n
+        self.n += 1
+        if k == self.fail_at:
+            raise OSError("injected write fault")
+        return len(b)
+
+
+def failed_save_then_save(tkey):
+    """A save of module A that fails at the k-th write (every k), or that the caller abandons after k chunks,
+    must not affect the next save of another module B (scratch state shared between saves would)."""
+    import io
+
+    import rv.api as rv
+    from rv.lib.iff import write_chunk
+
+    vs = []
+    n = 0
+    a_devs = [d for d in deviate.module_devs(tkey, 0, spikes="few", opt8="few") if d["k"] == "opt"]
+    a = deviate.build(tkey, a_devs[-6:] if a_devs else [])
+    for o in getattr(a, "options", {}):
+        try:
+            setattr(a, o, 1)
+        except Exception:
+            pass
+    w = _FailingWriter(None)
+    rv.Synth(a).write_to(w)
+    total = w.n
+    b_ref = C.save(rv.Synth(deviate.new_module(tkey)))
+    nchunks = len(list(rv.Synth(a).chunks()))
+    plans = [("write", k) for k in range(total)] + [("abandon", k) for k in range(1, nchunks)]
+    for kind, k in plans:
+        n += 1
+        try:
+            if kind == "write":
+                rv.Synth(a).write_to(_FailingWriter(k))
+            else:
+                g = rv.Synth(a).chunks()
+                for _ in range(k):
+                    next(g)
+                del g
+        except OSError:
+            pass
+        got = C.save(rv.Synth(deviate.new_module(tkey)))
+        if got != b_ref:
+            vs.append(C.viol("failed-save-affects-next-save", {"type": tkey, "how": kind},
+                             {"k": k, "of": total if kind == "write" else nchunks}, {"type": tkey, "failed_save": [kind, k]}))
+            break
+    return n, vs
 
 
 def hi_cases(seed):
@@ -187,6 +284,15 @@ def history_independence(seed):
 
 
 def _task(t):
+    if t[0] == "resave":
+        r = C.new_result()
+        n, vs = resave_after_edit(t[1])
+        n2, vs2 = failed_save_then_save(t[1]) if t[2] else (0, [])
+        r["evals"] = n + n2
+        r["violations"] = vs + vs2
+        C.count(r, "resave_after_edit", n)
+        C.count(r, "failed_save_plans", n2)
+        return r
     if t[0] == "history-independence":
         r = C.new_result()
         n, vs = history_independence(t[1])
@@ -221,6 +327,10 @@ def run(ctx):
     agg = C.Agg()
     ctx.add(empty_synth())
     tasks = [("history-independence", ctx.seed)]
+    from rvmc import spec as _spec
+
+    for k in deviate.type_keys():
+        tasks.append(("resave", k, bool(_spec.types()[k].options) or k in ("Generator", "MultiCtl")))
     for k in deviate.type_keys():
         n = len(deviate.module_devs(k, ctx.seed)) + 1
         for lo in range(0, n, 60):
@@ -247,5 +357,6 @@ def run(ctx):
         "k": 2 if ctx.thorough else 1,
         "types": len(deviate.type_keys()),
         "pairs": npairs, "history_independence_saves": agg.counters.get("history_independence_saves", 0),
+        "resave_after_inplace_edit": agg.counters.get("resave_after_edit", 0), "failed_save_plans": agg.counters.get("failed_save_plans", 0),
         "samples": agg.samples,
     }
